@@ -253,6 +253,9 @@ func (k *Check) ExploreProc(name string, cfg mc.Config, param any, body func(*mc
 func (k *Check) ExploreSched(name string, cfg mc.Config, param any, body func(*mc.Ctx)) *mc.Result {
 	k.sched = true
 	defer func() { k.sched = false }()
+	if cfg.RecycleAfter == 0 {
+		cfg.RecycleAfter = 4000
+	}
 	if k.replay != nil {
 		if k.replay.Part != name {
 			return &mc.Result{Name: name, Notes: map[string]int64{}}
